@@ -86,6 +86,12 @@ def stepLine (rz : Nat) (st : DState) (line : String) : DState × String :=
       | none => (st, "bad-op")
       | some (c, s) =>
         let fin (r : Res × State) : DState × String := (some (c, r.2), showRes c r.1 ++ showState c r.2)
+        -- over-reserved and unlocked (only reachable after a caught overflow under the lock): the harness does
+        -- not call the code there (it would write frame records at wild addresses); same rule here
+        let over := !s.threadlock && (s.pstack > c.narena || s.parena > c.narena - s.pstack)
+        if over && ["mark", "alloc", "alloci", "arena", "num", "int", "dispatch"].contains op then
+          (st, "over-reserved" ++ showState c s)
+        else
         match op, a with
         | "mark", [] => fin (step c s .mark)
         | "free", [] => fin (step c s .free)
